@@ -53,7 +53,9 @@ def billing_cases(draw):
         lengths[pos] = draw(odd)
     c = {"kind": "billing", "tz": tz, "cycle": cyc, "lengths": lengths, "start_day": draw(st.integers(0, 600)),
          "entry": draw(st.sampled_from(["frame", "from_series", "from_series_hourly_T"])),
-         "useed": draw(st.integers(0, 2 ** 20)), "baseline": draw(st.booleans())}
+         "useed": draw(st.integers(0, 2 ** 20)), "baseline": draw(st.booleans()),
+         # gas meters may bill exactly zero for a period
+         "zero_bill": draw(st.sampled_from([None, None, 0, 1, 2]))}
     # aim a boundary-length period at a DST change
     if tz in DST_DATES and draw(st.booleans()):
         c["aim"] = {"date": draw(st.sampled_from(DST_DATES[tz])), "length": draw(st.sampled_from([24, 25, 26, 34, 35, 36] if cyc == "monthly" else [24, 25, 26, 69, 70, 71])),
@@ -76,6 +78,8 @@ def billing_build(c):
     reads = synth.billing_calendar(start_day, lengths, tz)
     rng = np.random.default_rng(c["useed"])
     usage = rng.integers(100, 5000, len(lengths)).astype(float)
+    if c.get("zero_bill") is not None:
+        usage[min(c["zero_bill"] + 1, len(usage) - 1)] = 0.0
     return reads, usage, lengths
 
 
@@ -105,7 +109,7 @@ def judge_billing(c, rec):
             T = pd.Series(50 + 20 * rng.random(ndays), index=days)
             obs = pd.Series(np.nan, index=days)
             obs[reads[:-1]] = usage
-            data = Base(pd.DataFrame({"temperature": T, "observed": obs}), is_electricity_data=True)
+            data = Base(pd.DataFrame({"temperature": T, "observed": obs}), is_electricity_data=c.get("zero_bill") is None)
         else:
             meter = pd.Series(list(usage) + [np.nan], index=reads, name="value")
             if c["entry"] == "from_series":
@@ -113,7 +117,7 @@ def judge_billing(c, rec):
             else:
                 tidx = pd.date_range(reads[0].tz_convert("UTC"), reads[-1].tz_convert("UTC"), freq="h").tz_convert(tz)
             T = pd.Series(50 + 20 * rng.random(len(tidx)), index=tidx, name="temp")
-            data = Base.from_series(meter, T, is_electricity_data=True)
+            data = Base.from_series(meter, T, is_electricity_data=c.get("zero_bill") is None)
     o = data.df["observed"] if "observed" in data.df else pd.Series(np.nan, index=data.df.index)  # every period dropped
     local_date = pd.Series(o.index.tz_localize(None).normalize(), index=o.index)
     lim = (25, 35) if c["cycle"] == "monthly" else (25, 70)
@@ -136,7 +140,7 @@ def judge_billing(c, rec):
             elif not np.isfinite(vals).all():
                 rec.violation(key + "/valid-period-dropped" + tag, c, "period %d (%s..%s, %d calendar days) has %d missing days" % (
                     i, a.date(), b.date(), nd, int((~np.isfinite(vals)).sum())))
-            elif abs(math.fsum(vals) - usage[i]) > 1e-9 * usage[i]:
+            elif abs(math.fsum(vals) - usage[i]) > 1e-9 * max(usage[i], 1.0):
                 rec.violation(key + "/period-total" + tag, c, "period %d (%s, %d days): daily values sum to %r, billed %r" % (i, a.date(), nd, math.fsum(vals), usage[i]))
         else:
             if np.isfinite(vals).any():
@@ -163,7 +167,7 @@ def subdaily_cases(draw):
     # blocks: (day, first slot, length in slots, kind)
     c["blocks"] = draw(st.lists(st.tuples(st.integers(0, nd - 2), st.integers(0, per_day - 1),
                                           st.one_of(st.integers(1, per_day // 2 - 1), st.sampled_from([per_day // 2 - 1, per_day // 2, per_day // 2 + 1, per_day, per_day + 3])),
-                                          st.sampled_from(["nan", "absent"])), max_size=4))
+                                          st.sampled_from(["nan", "absent", "zero"])), max_size=4))
     return c
 
 
@@ -185,6 +189,8 @@ def subdaily_build(c):
             a = 1
         if kind == "nan":
             v[a:a + ln] = np.nan
+        elif kind == "zero":
+            v[a:a + ln] = 0.0  # gas meters: zero usage is a measurement (a whole day can sum to exactly 0)
         else:
             keep[a:a + ln] = False
     keep[0] = keep[-1] = True
